@@ -13,6 +13,33 @@ import random
 from . import core
 
 KINDS = ("single", "multi", "hexsingle", "hexmulti")
+LAYER_NAMES = ("elev", "heat")  # protocol layer L is LAYER_NAMES[L]; any other index names a layer that does not exist
+CMPS = {"ge": lambda k: (lambda d: d >= k), "le": lambda k: (lambda d: d <= k), "eq": lambda k: (lambda d: d == k),
+        "ne": lambda k: (lambda d: d != k)}
+
+
+def layer_name(i):
+    return LAYER_NAMES[i] if i < len(LAYER_NAMES) else f"nope{i}"
+
+
+def parse_sel(w):
+    """`sel RL OE NM mask… NC cond… NE ext…` -> (return_list, only_empty, masks, conds, exts) with masks = ("N", x, y, moore, ic, r) |
+    ("B", bits), conds = (layer, cmp, k), exts = (layer, mode)"""
+    rl, oe = w[1] == "1", w[2] == "1"
+    i = 3
+    out = []
+    for _ in range(3):
+        n = int(w[i])
+        out.append(w[i + 1:i + 1 + n])
+        i += 1 + n
+    assert i == len(w)
+    masks = []
+    for t in out[0]:
+        f = t.split("/")
+        masks.append(("N", int(f[1]), int(f[2]), f[3] == "1", f[4] == "1", int(f[5])) if f[0] == "N" else ("B", f[1]))
+    conds = [(int(f[0]), f[1], int(f[2])) for f in (t.split("/") for t in out[1])]
+    exts = [(int(f[0]), f[1]) for f in (t.split("/") for t in out[2])]
+    return rl, oe, masks, conds, exts
 
 
 class ScriptExhausted(Exception):
@@ -132,7 +159,10 @@ class GridImpl:
                "hexsingle": space.HexSingleGrid, "hexmulti": space.HexMultiGrid}[kind]
         pl = None
         if layers:
-            pl = [space.PropertyLayer("elev", w, h, 0.0), space.PropertyLayer("flag", w, h, False, dtype=bool)]
+            # two int layers that `select_cells` reads (modelled: layers 0 and 1) and a bool one nothing refers to
+            pl = [space.PropertyLayer("elev", w, h, 0, dtype=int), space.PropertyLayer("heat", w, h, 0, dtype=int),
+                  space.PropertyLayer("flag", w, h, False, dtype=bool)]
+        self.nlayers = 2 if layers else 0
         self.kind, self.w, self.h, self.torus, self.nag = kind, w, h, bool(torus), nag
         self.multi = kind in ("multi", "hexmulti")
         self.hex = kind.startswith("hex")
@@ -156,11 +186,15 @@ class GridImpl:
 
     def snap(self):
         g = self.grid
-        cells = {ck(c): self.ids(content) for content, c in g.coord_iter()}
+        # the contents are read from the cell store itself: coord_iter / iteration / indexing are views under test
+        cells = {ck((x, y)): self.ids(g._grid[x][y]) for (x, y) in self.cells_order}
         pos = tuple(None if a.pos is None else (int(a.pos[0]), int(a.pos[1])) for a in self.agents)
         mask = tuple(bool(g.empty_mask[x, y]) for (x, y) in self.cells_order)
         empty = tuple(bool(g.is_cell_empty(c)) for c in self.cells_order)
-        return {"pos": pos, "cells": cells, "mask": mask, "empty": empty}
+        s = {"pos": pos, "cells": cells, "mask": mask, "empty": empty}
+        if self.nlayers:
+            s["layers"] = [tuple(int(g.properties[n].data[x, y]) for (x, y) in self.cells_order) for n in LAYER_NAMES[:self.nlayers]]
+        return s
 
     def fmt_dump(self, s):
         ps = " ".join("-" if p is None else f"{p[0]},{p[1]}" for p in s["pos"])
@@ -170,7 +204,7 @@ class GridImpl:
 
     def empty_cells(self):
         """empty cells by inspection of the contents (does NOT read grid.empties)"""
-        return [c for content, c in self.grid.coord_iter() if not content]
+        return [(x, y) for (x, y) in self.cells_order if not self.grid._grid[x][y]]
 
     # one protocol line -------------------------------------------------------------------
     def line(self, w):
@@ -258,6 +292,37 @@ class GridImpl:
             r = g[ix, iy]
             v = [self.ids(r)] if isinstance(ix, int) and isinstance(iy, int) else [self.ids(c) for c in r]
             return sp(" ".join(fmt_cell(c) for c in v)), v
+        if k == "coorditer":
+            v = [((int(c[0]), int(c[1])), self.ids(content)) for content, c in g.coord_iter()]
+            return sp(" ".join(f"{c[0]},{c[1]}={fmt_cell(l)}" for c, l in v)), v
+        if k == "lset":
+            g.properties[layer_name(int(w[1]))].set_cell((int(w[2]), int(w[3])), int(w[4]))
+            return "ok", None
+        if k == "sel":
+            import numpy as np
+
+            rl, oe, masks, conds, exts = parse_sel(w)
+            ms = []
+            for m in masks:
+                if m[0] == "N":
+                    ms.append(g.get_neighborhood_mask((m[1], m[2]), m[3], m[4], m[5]))
+                else:
+                    ms.append(np.array([c == "1" for c in m[1]], dtype=bool).reshape(self.w, self.h))
+            kw = {}
+            if ms:
+                kw["masks"] = ms[0] if len(ms) == 1 and masks[0][0] == "B" else ms  # a single mask may be passed bare
+            if conds:
+                kw["conditions"] = {layer_name(l): CMPS[c](kk) for l, c, kk in conds}
+            if exts:
+                kw["extreme_values"] = {layer_name(l): mode for l, mode in exts}
+            r = g.select_cells(only_empty=oe, return_list=rl, **kw)
+            if rl:
+                v = [(int(x), int(y)) for x, y in r]
+                return sp(fmt_coords(v)), v
+            # a cell whose entry is masked (no cell was left for an extreme value) is not selected
+            data, msk = np.ma.getdata(r), np.ma.getmaskarray(r)
+            v = tuple(bool(data[x, y]) and not bool(msk[x, y]) for (x, y) in self.cells_order)
+            return sp("".join("1" if b else "0" for b in v)), v
         if k == "tadj":
             x, y = g.torus_adj((int(w[1]), int(w[2])))
             return f"ok {int(x)},{int(y)}", (int(x), int(y))
@@ -452,8 +517,13 @@ def mte_script(R, impl):
         return [R.randrange(100) for _ in range(R.randint(0, 2))]
     if n > math.floor(impl.grid.cutoff_empties):
         s = []
+        occ = [(x, y) for (x, y) in impl.cells_order if impl.grid._grid[x][y]]
         for _ in range(R.choice([0, 0, 1, 2, 4])):
-            s += [R.randrange(1000), R.randrange(1000)]
+            if occ and R.random() < 0.6:
+                o = R.choice(occ)  # an attempt that hits an occupied cell: the loop draws again
+                s += [o[0] + w * R.randrange(3), o[1] + h * R.randrange(3)]
+            else:
+                s += [R.randrange(1000), R.randrange(1000)]
         e = R.choice(empt)
         s += [e[0] + w * R.randrange(3), e[1] + h * R.randrange(3)]
         if R.random() < 0.08:
@@ -498,6 +568,64 @@ def gen_index_read(R, w, h):
         return f"tadj {x} {y}"
     x, y = any_coord(R, w, h)
     return f"oob {x} {y}"
+
+
+def gen_lset(R, impl):
+    """a write to an int property layer: small values (ties are the interesting case), 15% arbitrary ints as coordinates (numpy
+    aliasing / IndexError), 4% a layer that does not exist"""
+    w, h = impl.w, impl.h
+    l = R.randrange(2) if R.random() < 0.96 else R.randrange(2, 4)
+    x, y = (any_int(R, w), any_int(R, h)) if R.random() < 0.15 else (R.randrange(w), R.randrange(h))
+    v = R.choice([0, 1, 1, 2, 2, 3, 3, 5, -1, 9])
+    return f"lset {l} {x} {y} {v}"
+
+
+def gen_sel(R, impl):
+    """one select_cells call: 0-2 masks (get_neighborhood_mask of a mostly in-grid centre, or an explicit array), only_empty, 0-2
+    conditions and 0-2 extreme values on distinct layers (4% a layer that does not exist, 4% an invalid mode), either return form"""
+    w, h = impl.w, impl.h
+    rl, oe = R.random() < 0.75, R.random() < 0.6
+    masks = []
+    for _ in range(R.choice([0, 0, 0, 1, 1, 2])):
+        if R.random() < (0.15 if impl.hex else 0.6):
+            x, y = (R.randrange(w), R.randrange(h)) if R.random() < 0.95 else any_coord(R, w, h)
+            masks.append(f"N/{x}/{y}/{int(R.random() < 0.5)}/{int(R.random() < 0.5)}/{R.choice([0, 1, 1, 1, 2, 2, 3])}")
+        else:
+            p = R.choice([0.3, 0.7, 0.9])
+            masks.append("B/" + "".join("1" if R.random() < p else "0" for _ in range(w * h)))
+    have = impl.nlayers
+
+    def layers(n):
+        ls = R.sample(range(2), min(n, 2))
+        if n and R.random() < (0.04 if have else 0.5):
+            ls[R.randrange(len(ls))] = R.randrange(2, 4)
+        return ls
+
+    nc = R.choice([0, 0, 1, 1, 2]) if have else R.choice([0, 0, 0, 0, 1])
+    ne = R.choice([0, 0, 1, 1, 1, 2]) if have else R.choice([0, 0, 0, 0, 1])
+    conds = [f"{l}/{R.choice(['ge', 'ge', 'le', 'eq', 'ne'])}/{R.choice([0, 1, 1, 2, 3, 5, 100])}" for l in layers(nc)]
+    exts = [f"{l}/{R.choice(['highest', 'lowest']) if R.random() < 0.96 else 'bogus'}" for l in layers(ne)]
+    return " ".join(["sel", str(int(rl)), str(int(oe)), str(len(masks)), *masks, str(len(conds)), *conds, str(len(exts)), *exts])
+
+
+def exhaustive_select_c08():
+    """select_cells on two small grids with layers (a stacked MultiGrid, a HexSingleGrid): every combination of return form x
+    only_empty x {no mask, a neighbourhood mask, an explicit mask} x 4 conditions x 8 extreme-value dicts (ties, two layers in
+    both orders, an invalid mode, a missing layer), and coord_iter"""
+    out = []
+    for kind, w, h in (("multi", 3, 2), ("hexsingle", 2, 2)):
+        lines = [grid_header(kind, w, h, False, True, 3), "place 0 1 1", "place 1 1 1" if kind == "multi" else "place 1 0 0", "coorditer",
+                 "lset 0 0 0 5", f"lset 0 {w - 1} {h - 1} 5", "lset 0 1 1 9", "lset 1 0 1 -1", "lset 1 1 0 2", "lset 0 -1 0 1", f"lset 1 {w} 0 1", "lset 2 0 0 1"]
+        for rl in (1, 0):
+            for oe in (0, 1):
+                for m in ("0", "1 N/0/0/1/0/1", "1 B/" + "110111"[:w * h], "2 N/1/1/0/1/1 B/" + "011111"[:w * h]):
+                    for c in ("0", "1 0/ge/1", "1 1/le/0", "2 1/ne/2 0/ge/5", "1 2/eq/0"):
+                        for e in ("0", "1 0/highest", "1 0/lowest", "1 1/highest", "2 0/highest 1/lowest", "2 1/lowest 0/highest",
+                                  "1 0/bogus", "1 3/highest"):
+                            lines.append(f"sel {rl} {oe} {m} {c} {e}")
+        lines += ["remove 0", "coorditer", "sel 1 1 0 0 0", "empties"]
+        out.append(core.Scenario(lines, {"exhaustive": True}))
+    return out
 
 
 def exhaustive_index_c08():
@@ -571,6 +699,9 @@ def gen_c08(R, tier, rejecting=False):
                 b.add(f"place {a} {x} {y}")
         b.add("dump")
     n_ops = R.randint(5, 40 if tier == "quick" else 60)
+    if layers and not rejecting:
+        for _ in range(R.randint(0, 6)):
+            b.add(gen_lset(R, impl))
     for step in range(n_ops):
         placed = [i for i, a in enumerate(impl.agents) if a.pos is not None]
         unplaced = [i for i, a in enumerate(impl.agents) if a.pos is None]
@@ -671,6 +802,14 @@ def gen_c08(R, tier, rejecting=False):
             ps = [any_coord(R, w, h) for _ in range(n)]
             if n >= 2 and R.random() < 0.3:
                 ps[1] = ps[0]  # duplicates offered
+            if n >= 2 and a in placed and R.random() < 0.3:
+                # offers at the same distance from the agent: the tie list has several cells, the last draw decides
+                px, py = impl.agents[a].pos
+                d = R.randint(1, 2)
+                ring = [(px + d, py), (px - d, py), (px, py + d), (px, py - d)]
+                R.shuffle(ring)
+                for j in range(min(n, R.randint(2, 4))):
+                    ps[j] = ring[j]
             if n >= 2 and torus and R.random() < 0.4:
                 ps[0] = (ps[0][0] + w * R.choice([-2, -1, 1, 2]), ps[0][1] + h * R.choice([-1, 0, 1]))
             sel = R.choice(["random", "closest", "closest", "closest", "bogus"] if R.random() < 0.15 else ["random", "closest", "closest"])
@@ -691,12 +830,18 @@ def gen_c08(R, tier, rejecting=False):
                 b.add(f"isempty {R.randrange(w)} {R.randrange(h)}")
             elif j < 0.45:
                 b.add(gen_index_read(R, w, h))
-            elif j < 0.58:
+            elif j < 0.55:
                 b.add("mask")
-            elif j < 0.7:
+            elif j < 0.63:
                 b.add("agents")
-            elif j < 0.8:
+            elif j < 0.69:
                 b.add("iter")
+            elif j < 0.74:
+                b.add("coorditer")
+            elif j < 0.88:
+                b.add(gen_sel(R, impl))
+            elif j < 0.92 and layers:
+                b.add(gen_lset(R, impl))
             else:
                 x, y = any_coord(R, w, h)
                 b.add(f"get {x} {y}")
@@ -1146,6 +1291,21 @@ def oracle_c08_net(sc, obs, H):
     return bad
 
 
+def torus_dist_sq(H, p, q):
+    """squared distance between the cells two coordinates denote (per axis the least distance over all translates on a torus)"""
+    w, h = H["w"], H["h"]
+    dx, dy = abs(p[0] - q[0]), abs(p[1] - q[1])
+    if H["torus"]:
+        dx, dy = min(dx % w, w - dx % w), min(dy % h, h - dy % h)
+    return dx * dx + dy * dy
+
+
+def closest_ties(H, ps, cur):
+    """the offers at minimal distance from cur (with multiplicity)"""
+    best = min(torus_dist_sq(H, q, cur) for q in ps)
+    return [q for q in ps if torus_dist_sq(H, q, cur) == best]
+
+
 def oracle_c08(sc, obs):
     H = _hdr(sc)
     if sc.meta.get("oq") or any(l.startswith("foreign ") for l in sc.lines):
@@ -1256,6 +1416,70 @@ def oracle_c08(sc, obs):
                     bad.append(f"index: {where}: a zero slice step gave {res}")
             elif not res.startswith("ok") or [tuple(x) for x in e["val"]] != want:
                 bad.append(f"index: {where}: gave {res}, Python slicing of the contents gives {want}")
+        elif k == "coorditer":
+            want = [(c, Bc[c]) for c in order]
+            if not res.startswith("ok") or [(tuple(c), tuple(l)) for c, l in e["val"]] != want:
+                bad.append(f"coord-iter: {where}: coord_iter() gave {e['val']}, the cells in order hold {want}")
+        elif k == "lset":
+            l, p, v = int(op[1]), (int(op[2]), int(op[3])), int(op[4])
+            lay_b, lay_a = B.get("layers") or [], A.get("layers") or []
+            if l < len(lay_b) and ing(p):
+                i = order.index(p)
+                want = [list(x) for x in lay_b]
+                want[l][i] = v
+                if res != "ok" or [list(x) for x in lay_a] != want:
+                    bad.append(f"layer-set: {where}: gave {res}; the layers are {lay_a}, expected {want}")
+            elif res.startswith("err") and lay_a != lay_b:
+                bad.append(f"reject-unchanged: {where}: raised {res} but a layer changed")
+        elif k == "sel":
+            rl, oe, masks, conds, exts = parse_sel(op)
+            lay = B.get("layers") or []
+            val = lambda l, c: lay[l][order.index(c)]  # noqa: E731
+            err, sel = None, set(order)
+            for m in masks:  # the masks are built first, left to right
+                if m[0] == "N":
+                    if H["hex"]:
+                        err = "Type"  # get_neighborhood_mask is inherited by the hex classes but cannot work there
+                    elif not ing((m[1], m[2])):
+                        err = "OutOfBounds"
+                    else:
+                        ball = orth_ball(w, h, torus, (m[1], m[2]), m[3], m[5])
+                        if not m[4]:
+                            ball.discard((m[1], m[2]))
+                        sel &= ball
+                else:
+                    sel &= {c for c, bit in zip(order, m[1]) if bit == "1"}
+                if err:
+                    break
+            if err is None:
+                if oe:
+                    sel = {c for c in sel if not Bc[c]}
+                for l, cmp_, kk in conds:
+                    if l >= len(lay):
+                        err = "Key"
+                        break
+                    sel = {c for c in sel if {"ge": val(l, c) >= kk, "le": val(l, c) <= kk, "eq": val(l, c) == kk, "ne": val(l, c) != kk}[cmp_]}
+            if err is None:
+                for l, mode in exts:
+                    if l >= len(lay):
+                        err = "Key"
+                        break
+                    if mode not in ("highest", "lowest"):
+                        err = "Value"
+                        break
+                    if sel:
+                        t = (max if mode == "highest" else min)(val(l, c) for c in sel)
+                        sel = {c for c in sel if val(l, c) == t}
+            if err:
+                if res != "err " + err:
+                    bad.append(f"select-reject: {where}: gave {res}, expected err {err}")
+            else:
+                want = [c for c in order if c in sel]
+                got = [tuple(c) for c in e["val"]] if rl and res.startswith("ok") else (
+                    [c for c, bit in zip(order, e["val"]) if bit] if res.startswith("ok") else None)
+                if got != want:
+                    bad.append(f"select: {where}: select_cells gave {res if got is None else got}, the cells that qualify "
+                               f"(masks, {'empty, ' if oe else ''}conditions, extreme values) are {want}")
         elif k == "tadj":
             p = (int(op[1]), int(op[2]))
             if ing(p) or torus:
